@@ -79,7 +79,7 @@ def run(cell):
 
 OUTCOMES = ['ok', 'refuse-mail', 'refuse-rcpt', 'drop-at-data',
             'connect-error', 'drop-at-banner', 'refuse-rcpt-slow-rset',
-            'eod-fail-first']
+            'eod-fail-first', 'mail-421-no-close']
 
 
 class World(object):
@@ -154,6 +154,9 @@ def make_peer(w, n):
                                      (state['sender'] or '?')])
         if stage == 'MAIL':
             state['eod'] = 0
+            if w.outcome_of(state['sender']) == 'mail-421-no-close':
+                # a 421 that is not followed by the server closing
+                return ('reply', '421', ['4.3.2 busy for ' + state['sender']])
             if w.outcome_of(state['sender']) == 'refuse-mail':
                 return ('reply', '550', ['5.1.0 no for ' + state['sender']])
             return ('reply', '250', ['ok'])
@@ -198,7 +201,7 @@ def run_pool(cell):
     faulty = set()
     for j in range(nf):
         target = api.choice('fault_target%d' % j, k + 2)
-        kind = OUTCOMES[1 + api.choice('fault_kind%d' % j, 7)]
+        kind = OUTCOMES[1 + api.choice('fault_kind%d' % j, 8)]
         if target < k:
             if kind in ('connect-error', 'drop-at-banner'):
                 plan['conn%d' % target] = kind
